@@ -283,6 +283,23 @@ def apply_history(v, case, hist, cached, cache_type, scratch, tag, desc_w):
                 if redo:
                     v.bad(f"re-executed-resident/{cache_type}", f"cached function(s) {redo} re-executed on an immediately repeated call", **w)
                     return hits
+                if cache_type == "disk" and step % 3 == 0:
+                    # the disk cache IS its directory: a copy of the pipeline (a second DiskCache object on the same directory)
+                    # repeating the call finds every entry resident
+                    try:
+                        with quiet():
+                            P2 = P.copy()
+                            probes.log_clear(plog)
+                            r3 = P2(out, **K)
+                        again3 = [c["f"] for c in probes.log_read(plog)]
+                        v.count("repeats_on_a_copy_sharing_the_disk_cache")
+                        if r3 != q[1]:
+                            v.bad(f"diverge-on-repeat/{last_mut}/{ctx}/copy", f"repeat on a copy returned {r3!r:.160}, expected {q[1]!r:.160}", **w)
+                        elif [f for f in again3 if f in cached]:
+                            v.bad("re-executed-resident/disk/copy-sharing-the-directory",
+                                  f"cached function(s) {[f for f in again3 if f in cached]} re-executed by a copy of the pipeline although the entries are in the shared cache directory", **w)
+                    except Exception as e:  # noqa: BLE001
+                        v.bad(exc_sig(e, "cached-raises-on-repeat/disk/copy"), f"repeat on a copy raised {exc_msg(e)}", **w)
         else:
             old_states.append(((dict(defaults), {k: dict(x) for k, x in bound.items()}, dict(prefix)), op["op"]))
             last_mut = "after-" + op["op"]
@@ -360,8 +377,50 @@ def whole_upstream_case(rng):
     return {"sizes": {a: rng.randint(2, 3) for a in mapgen.AX}, "roots": roots, "funcs": funcs}
 
 
+def _res_f(x, res):
+    return f"f({x};cpus={res.cpus})"
+
+
+def _res_cpus(kwargs):
+    from pipefunc.resources import Resources
+
+    return Resources(cpus=len(kwargs["x"]))
+
+
+def resources_scenario(v, scratch, tag):
+    """A mapped, cached function whose result also depends on resources evaluated from the WHOLE input arrays
+    (callable `resources`, resources_scope="map", resources_variable): two maps on one pipeline that repeat element
+    values while the arrays differ must each equal what an uncached pipeline returns."""
+    from pipefunc import PipeFunc, Pipeline
+
+    for ct in ("simple", "lru", "hybrid", "disk"):
+        kw = {"cache_type": ct}
+        if ct in ("lru", "hybrid"):
+            kw["cache_kwargs"] = {"shared": False}
+        elif ct == "disk":
+            d = os.path.join(scratch, f"rdisk-{tag}")
+            os.makedirs(d, exist_ok=True)
+            kw["cache_kwargs"] = {"cache_dir": d, "lru_shared": False}
+        try:
+            with quiet():
+                mk = lambda cache: PipeFunc(_res_f, "y", mapspec="x[i] -> y[i]", resources=_res_cpus, resources_variable="res",  # noqa: E731
+                                            resources_scope="map", cache=cache)
+                P, Q = Pipeline([mk(True)], **kw), Pipeline([mk(False)])
+                for n, xs in enumerate((["a", "b"], ["a", "b", "c"], ["a", "b"])):
+                    got = list(P.map({"x": xs}, run_folder=os.path.join(scratch, f"rp-{tag}-{ct}-{n}"), parallel=False, storage="dict")["y"].output)
+                    want = list(Q.map({"x": xs}, run_folder=os.path.join(scratch, f"rq-{tag}-{ct}-{n}"), parallel=False, storage="dict")["y"].output)
+                    v.count("resource_dependent_cached_maps")
+                    if got != want:
+                        v.bad(f"cached-map-value/resources-from-whole-arrays/{ct}", f"map #{n + 1} over x={xs}: cached {got}, uncached {want}",
+                              cache_type=ct, inputs=xs)
+                        break
+        except Exception as e:  # noqa: BLE001
+            v.bad(exc_sig(e, f"cached-map-raises/resources/{ct}"), f"map with callable resources raised {exc_msg(e)}", cache_type=ct)
+
+
 def run_maps(v, desc, scratch, keys):
     ctx = multiprocessing.get_context("fork")
+    resources_scenario(v, scratch, desc["start"])
     for i in range(desc["start"], desc["start"] + desc["n"]):
         case = mapgen.case_from_seed(desc["seed"], i, max_funcs=3)
         rng = random.Random(f"c09m:{desc['seed']}:{i}")
@@ -454,7 +513,11 @@ def run_maps(v, desc, scratch, keys):
                     try:
                         with quiet():
                             mk2 = dict(mk, run_folder=os.path.join(scratch, f"m2-{i}-{mode}-{ct}"))
-                            if mode == "seq":
+                            if mode == "seq" and ct == "disk":
+                                # (through a sub-pipeline: map(output_names=...) copies the pipeline - another DiskCache object
+                                # on the same directory)
+                                res2 = p.map(inputs, parallel=False, output_names={o_ for f_ in case["funcs"] for o_ in f_["outs"]}, **mk2)
+                            elif mode == "seq":
                                 res2 = p.map(inputs, parallel=False, **mk2)
                             else:
                                 ex = ThreadPoolExecutor(3) if mode == "thread" else ProcessPoolExecutor(2, mp_context=ctx)
